@@ -9,13 +9,14 @@ sys.path.insert(0, HERE)
 
 CHECKS = {
     # id: (technique, level text, level note, design ref)
-    'C16': ('runtime monitoring: random access histories checked op-by-op against a sequential device model + '
-            'icontract class invariant on RAM',
+    'C16': ('runtime monitoring: random access histories - with the controller registry itself changing between accesses - '
+            'checked op-by-op against a sequential device model + icontract class invariant on RAM',
             'Every operation of ~1M (quick) generated hub reads/writes is compared byte-for-byte over all devices '
             'with a 15-line first-match-wins model; held on the histories observed, nothing more.',
             'Trusted: the sequential model in vf/props/c16.py; CPython.', 'DESIGN.md §2 C16'),
     'C18': ('runtime monitoring: escape monitor around the real emulate_cycle() over all Thumb-16 words x IT positions, '
-            'every decoder path (bit-provenance tracer), random words, random programs, hostile MMU set-ups and a write-then-read '
+            'every decoder path (bit-provenance tracer), random words, random programs, hostile MMU set-ups, every data-accessing '
+            'encoding row with addresses solved onto memory, translation walks over generated page tables and a write-then-read '
             'sweep of the cp14/cp15 register space on long-lived instances with a register-object type audit',
             'Every step of the workload is observed for an escaping host exception; exhaustive for the 2^16 Thumb-16 '
             'words x 3 IT positions and for at-least-one-word-per-feasible-decoder-path, sampled elsewhere.',
